@@ -1133,6 +1133,12 @@ class KmipEngine(object):
             policy_name,
             session_group
         )
+        if policy_section is None and session_group:
+            # If group information is provided but the policy only defines
+            # preset controls, the preset controls are enforced.
+            policy_bundle = (self._operation_policies or {}).get(policy_name)
+            if policy_bundle and not policy_bundle.get('groups'):
+                policy_section = policy_bundle.get('preset')
         if policy_section is None:
             return False
 
